@@ -59,6 +59,8 @@ def run(repo, rep):
     _log_rule(repo, rep, 'C12', 'C12.Z2')
     from ..api_pitfalls import truth_rule as _truth_rule
     _truth_rule(repo, rep, 'C12', 'C12.Z4')
+    from ..api_pitfalls import attribute_rule as _attribute_rule
+    _attribute_rule(repo, rep, 'C12', 'C12.Z5')
     model = FsmModel(repo)
     pm = ProviderModel(repo, model)
     rep.rule('C12.E6', 'no function of the provider / state machine / codecs reads an ``except ... as name`` variable after its handler '
